@@ -83,8 +83,13 @@ def run(tier):
     nsc = len(scs)
     validated = 0
     B = 100 if tier == "quick" else 250
-    for b in range(0, nsc, B):
-        chunk = scs[b:b + B]
+    # a small first chunk: a change that makes most scenarios hang (15 s each) is reported after minutes, not hours
+    starts = [0] + list(range(20, nsc, B))
+    for bi, b in enumerate(starts):
+        if len(violations) >= 5:
+            log("  %d violations so far: remaining %d scenarios skipped" % (len(violations), nsc - b))
+            break
+        chunk = scs[b:(starts[bi + 1] if bi + 1 < len(starts) else nsc)]
         raw = os.path.join(wd, "async-%d.ndjson" % b)
         if os.path.exists(raw):
             os.remove(raw)
